@@ -180,8 +180,23 @@ def c02(case, obs):
     return "".join(delivered) + " " + ",".join(errs) + " " + " ".join(tail)
 
 
+_RLE = re.compile(r"R([0-9a-fA-F]{2})x(\d+)\.")
+
+
 def _unhex(h):
-    return bytes.fromhex(h) if h and h != "-" else b""
+    """hex bytes; `R<hh>x<n>.` stands for the byte hh repeated n times (the run-length notation of long cases)"""
+    if not h or h == "-":
+        return b""
+    if "R" not in h:
+        return bytes.fromhex(h)
+    out = bytearray()
+    pos = 0
+    for m in _RLE.finditer(h):
+        out += bytes.fromhex(h[pos:m.start()])
+        out += bytes([int(m.group(1), 16)]) * int(m.group(2))
+        pos = m.end()
+    out += bytes.fromhex(h[pos:])
+    return bytes(out)
 
 
 def rbsp_valid(payload):
